@@ -29,7 +29,26 @@ theorem wlT_map_act (h : Held) (p : List Act) : wlT h (p.map Task.act) = wl h p 
 def heldOf (s : Sys) (t : Nat) : Held :=
   if s.writer = some t then .w else if t ∈ s.readers then .r else .free
 
+/-- ownership of the returned slices -/
+structure HeapInv (s : Sys) : Prop where
+  handlesND : (s.outs.map (·.handle)).Nodup
+  handlesLt : ∀ o ∈ s.outs, o.handle < s.heap.length
+  mineOwn   : ∀ t h, s.mine t = some h → ∃ o ∈ s.outs, o.handle = h ∧ o.tid = t
+  content   : ∀ o ∈ s.outs, o.handle ∈ s.dirty ∨ s.heap[o.handle]? = some o.listing
+  dirtyOwn  : ∀ h ∈ s.dirty, ∃ o ∈ s.outs, o.handle = h
+  cacheNone : s.cache = none
+
+theorem HeapInv.frame {s s' : Sys} (h : HeapInv s) (ho : s'.outs = s.outs) (hh : s'.heap = s.heap)
+    (hm : s'.mine = s.mine) (hd : s'.dirty = s.dirty) (hc : s'.cache = s.cache) : HeapInv s' where
+  handlesND := by rw [ho]; exact h.handlesND
+  handlesLt := by rw [ho, hh]; exact h.handlesLt
+  mineOwn := by rw [ho, hm]; exact h.mineOwn
+  content := by rw [ho, hh, hd]; exact h.content
+  dirtyOwn := by rw [ho, hd]; exact h.dirtyOwn
+  cacheNone := by rw [hc]; exact h.cacheNone
+
 structure Inv (s : Sys) : Prop where
+  heapInv : HeapInv s
   excl    : s.writer.isSome = true → s.readers = []
   rnodup  : s.readers.Nodup
   inodup  : s.iterating.Nodup
@@ -193,13 +212,83 @@ theorem iter_frame {s s' : Sys} (inv : Inv s) {t : Nat} {a : Act} {rest : List T
       exact inv.iterConv u i r hu
 
 
+/-- a finished range hands a FRESH slice to its caller -/
+theorem heap_alloc {s : Sys} (h : HeapInv s) (t : Nat) (l : List Val) (g : GMap) {s' : Sys}
+    (ho : s'.outs = s.outs ++ [⟨t, l, g, s.heap.length⟩] := by rfl) (hh : s'.heap = s.heap ++ [l] := by rfl)
+    (hm : s'.mine = updF s.mine t (some s.heap.length) := by rfl) (hd : s'.dirty = s.dirty := by rfl)
+    (hc : s'.cache = s.cache := by rfl) : HeapInv s' where
+  handlesND := by
+    rw [ho, List.map_append, List.nodup_append]
+    refine ⟨h.handlesND, by simp, ?_⟩
+    intro a ha b hb
+    simp only [List.map_cons, List.map_nil, List.mem_singleton] at hb
+    obtain ⟨o, hoo, rfl⟩ := List.mem_map.mp ha
+    have := h.handlesLt o hoo
+    omega
+  handlesLt := by
+    intro o hoo
+    rw [ho] at hoo; rw [hh, List.length_append]
+    rcases List.mem_append.mp hoo with hoo | hoo
+    · have := h.handlesLt o hoo; simp; omega
+    · simp only [List.mem_singleton] at hoo; subst hoo; simp
+  mineOwn := by
+    intro u k hk
+    rw [hm] at hk; rw [ho]
+    unfold updF at hk
+    split at hk
+    · rename_i hut
+      injection hk with hk
+      exact ⟨⟨t, l, g, s.heap.length⟩, List.mem_append_right _ (List.mem_singleton.mpr rfl), hk, hut.symm⟩
+    · obtain ⟨o, hoo, h1, h2⟩ := h.mineOwn u k hk
+      exact ⟨o, List.mem_append_left _ hoo, h1, h2⟩
+  content := by
+    intro o hoo
+    rw [ho] at hoo; rw [hh, hd]
+    rcases List.mem_append.mp hoo with hoo | hoo
+    · rcases h.content o hoo with hc' | hc'
+      · exact Or.inl hc'
+      · right; rw [List.getElem?_append_left (h.handlesLt o hoo)]; exact hc'
+    · simp only [List.mem_singleton] at hoo; subst hoo
+      right; simp
+  dirtyOwn := by
+    intro k hk
+    rw [hd] at hk; rw [ho]
+    obtain ⟨o, hoo, h1⟩ := h.dirtyOwn k hk
+    exact ⟨o, List.mem_append_left _ hoo, h1⟩
+  cacheNone := by rw [hc]; exact h.cacheNone
+
+/-- mutating one's own slice in place touches no other slice -/
+theorem heap_mutate {s : Sys} (h : HeapInv s) (k : Nat) (hk : ∃ o ∈ s.outs, o.handle = k) (f : List Val → List Val)
+    {s' : Sys} (ho : s'.outs = s.outs := by rfl) (hh : s'.heap = s.heap.set k (f (s.heap.getD k [])) := by rfl)
+    (hm : s'.mine = s.mine := by rfl) (hd : s'.dirty = k :: s.dirty := by rfl)
+    (hc : s'.cache = s.cache := by rfl) : HeapInv s' where
+  handlesND := by rw [ho]; exact h.handlesND
+  handlesLt := by rw [ho, hh, List.length_set]; exact h.handlesLt
+  mineOwn := by rw [ho, hm]; exact h.mineOwn
+  content := by
+    intro o hoo
+    rw [ho] at hoo; rw [hh, hd]
+    by_cases hok : o.handle = k
+    · exact Or.inl (hok ▸ List.mem_cons_self ..)
+    · rcases h.content o hoo with hc' | hc'
+      · exact Or.inl (List.mem_cons_of_mem _ hc')
+      · right; rw [List.getElem?_set_ne (Ne.symm hok)]; exact hc'
+  dirtyOwn := by
+    intro j hj
+    rw [hd] at hj; rw [ho]
+    rcases List.mem_cons.mp hj with hj | hj
+    · subst hj; exact hk
+    · exact h.dirtyOwn j hj
+  cacheNone := by rw [hc]; exact h.cacheNone
+
 /-- all actions that neither start, advance nor finish a range -/
 theorem inv_plain_step {s s' : Sys} (inv : Inv s) {t : Nat} {a : Act} {rest : List Task}
     (hth : s.threads[t]? = some (.act a :: rest)) (hthr : s'.threads = s.threads.set t rest)
     (hm : s'.m = s.m ∨ s.iterating = []) (hi : s'.iterating = s.iterating) (hacc : s'.acc = s.acc)
-    (hb : s'.began = s.began) (houts : s'.outs = s.outs) (hrace : s'.race = false) (hfatal : s'.fatal = false)
+    (hb : s'.began = s.began) (houts : s'.outs = s.outs) (hheap : HeapInv s') (hrace : s'.race = false) (hfatal : s'.fatal = false)
     (hexcl : s'.writer.isSome = true → s'.readers = []) (hnd : s'.readers.Nodup)
     (hother : ∀ u, u ≠ t → heldOf s' u = heldOf s u) (hself : wlT (heldOf s' t) rest = true) : Inv s' where
+  heapInv := hheap
   excl := hexcl
   rnodup := hnd
   inodup := by rw [hi]; exact inv.inodup
@@ -228,7 +317,7 @@ theorem stepTask_inv {s s' : Sys} {t : Nat} {task : Task} {rest : List Task} (in
       · rename_i hc
         injection hs with hs; subst hs
         simp only [Bool.and_eq_true, Option.isNone_iff_eq_none, List.isEmpty_iff] at hc
-        refine inv_plain_step inv hth rfl (Or.inl rfl) rfl rfl rfl rfl inv.clean.1 inv.clean.2
+        refine inv_plain_step inv hth rfl (Or.inl rfl) rfl rfl rfl rfl (inv.heapInv.frame rfl rfl rfl rfl rfl) inv.clean.1 inv.clean.2
           (fun _ => hc.2) inv.rnodup ?_ ?_
         · intro u hut
           have h1 : ¬ (some t = some u) := fun e => hut (Option.some.inj e).symm
@@ -243,7 +332,7 @@ theorem stepTask_inv {s s' : Sys} {t : Nat} {task : Task} {rest : List Task} (in
       have hre : s.readers = [] := inv.excl (by rw [hwr]; rfl)
       simp only [stepTask, hwr, beq_self_eq_true, if_true] at hs
       injection hs with hs; subst hs
-      refine inv_plain_step inv hth rfl (Or.inl rfl) rfl rfl rfl rfl inv.clean.1 inv.clean.2
+      refine inv_plain_step inv hth rfl (Or.inl rfl) rfl rfl rfl rfl (inv.heapInv.frame rfl rfl rfl rfl rfl) inv.clean.1 inv.clean.2
         (fun h => by cases h) inv.rnodup ?_ ?_
       · intro u hut
         have h1 : ¬ (some t = some u) := fun e => hut (Option.some.inj e).symm
@@ -259,7 +348,7 @@ theorem stepTask_inv {s s' : Sys} {t : Nat} {task : Task} {rest : List Task} (in
         injection hs with hs; subst hs
         simp only [Option.isNone_iff_eq_none] at hc
         have hn := heldOf_none hf
-        refine inv_plain_step inv hth rfl (Or.inl rfl) rfl rfl rfl rfl inv.clean.1 inv.clean.2
+        refine inv_plain_step inv hth rfl (Or.inl rfl) rfl rfl rfl rfl (inv.heapInv.frame rfl rfl rfl rfl rfl) inv.clean.1 inv.clean.2
           (fun h => by simp [hc] at h) (List.nodup_cons.mpr ⟨hn.2, inv.rnodup⟩) ?_ ?_
         · intro u hut
           simp [heldOf, hc, hut]
@@ -277,7 +366,7 @@ theorem stepTask_inv {s s' : Sys} {t : Nat} {task : Task} {rest : List Task} (in
         cases hw : s.writer with
         | none => rfl
         | some w => have := inv.excl (by rw [hw]; rfl); rw [this] at hin; cases hin
-      refine inv_plain_step inv hth rfl (Or.inl rfl) rfl rfl rfl rfl inv.clean.1 inv.clean.2
+      refine inv_plain_step inv hth rfl (Or.inl rfl) rfl rfl rfl rfl (inv.heapInv.frame rfl rfl rfl rfl rfl) inv.clean.1 inv.clean.2
         (fun h => by simp [hwn] at h) (inv.rnodup.erase t) ?_ ?_
       · intro u hut
         simp only [heldOf, List.mem_erase_of_ne hut]
@@ -291,7 +380,7 @@ theorem stepTask_inv {s s' : Sys} {t : Nat} {task : Task} {rest : List Task} (in
       have hni := inv.no_iter_of_writer hwr hnot
       simp only [stepTask] at hs
       injection hs with hs; subst hs
-      refine inv_plain_step inv hth rfl (Or.inr hni) rfl rfl rfl rfl ?_ ?_ inv.excl inv.rnodup
+      refine inv_plain_step inv hth rfl (Or.inr hni) rfl rfl rfl rfl (inv.heapInv.frame rfl rfl rfl rfl rfl) ?_ ?_ inv.excl inv.rnodup
         (fun u _ => heldOf_congr rfl rfl u) ?_
       · simp [inv.clean.1, Sys.canWrite, hwr]
       · simp [inv.clean.2, hni]
@@ -304,7 +393,7 @@ theorem stepTask_inv {s s' : Sys} {t : Nat} {task : Task} {rest : List Task} (in
       have hni := inv.no_iter_of_writer hwr hnot
       simp only [stepTask] at hs
       injection hs with hs; subst hs
-      refine inv_plain_step inv hth rfl (Or.inr hni) rfl rfl rfl rfl ?_ ?_ inv.excl inv.rnodup
+      refine inv_plain_step inv hth rfl (Or.inr hni) rfl rfl rfl rfl (inv.heapInv.frame rfl rfl rfl rfl rfl) ?_ ?_ inv.excl inv.rnodup
         (fun u _ => heldOf_congr rfl rfl u) ?_
       · simp [inv.clean.1, Sys.canWrite, hwr]
       · simp [inv.clean.2, hni]
@@ -316,7 +405,7 @@ theorem stepTask_inv {s s' : Sys} {t : Nat} {task : Task} {rest : List Task} (in
       obtain ⟨hne, rfl⟩ := hh
       simp only [stepTask] at hs
       injection hs with hs; subst hs
-      refine inv_plain_step inv hth rfl (Or.inl rfl) rfl rfl rfl rfl ?_ inv.clean.2 inv.excl inv.rnodup
+      refine inv_plain_step inv hth rfl (Or.inl rfl) rfl rfl rfl rfl (inv.heapInv.frame rfl rfl rfl rfl rfl) ?_ inv.clean.2 inv.excl inv.rnodup
         (fun u _ => heldOf_congr rfl rfl u) ?_
       · simp [inv.clean.1, canRead_of_held hne]
       · change wlT (heldOf s t) rest = true; exact hwl
@@ -326,9 +415,29 @@ theorem stepTask_inv {s s' : Sys} {t : Nat} {task : Task} {rest : List Task} (in
       subst hh
       simp only [stepTask] at hs
       injection hs with hs; subst hs
-      refine inv_plain_step inv hth rfl (Or.inl rfl) rfl rfl rfl rfl inv.clean.1 inv.clean.2 inv.excl inv.rnodup
+      refine inv_plain_step inv hth rfl (Or.inl rfl) rfl rfl rfl rfl (inv.heapInv.frame rfl rfl rfl rfl rfl) inv.clean.1 inv.clean.2 inv.excl inv.rnodup
         (fun u _ => heldOf_congr rfl rfl u) ?_
       change wlT (heldOf s t) rest = true; exact hwl
+    | mutate =>
+      have hh : h' = heldOf s t := by
+        cases hh : heldOf s t <;> simp [Held.afterT, Held.after, hh] at haft <;> simp [haft]
+      subst hh
+      simp only [stepTask] at hs
+      cases hmine : s.mine t with
+      | none =>
+        rw [hmine] at hs; injection hs with hs; subst hs
+        refine inv_plain_step inv hth rfl (Or.inl rfl) rfl rfl rfl rfl (inv.heapInv.frame rfl rfl rfl rfl rfl)
+          inv.clean.1 inv.clean.2 inv.excl inv.rnodup (fun u _ => heldOf_congr rfl rfl u) ?_
+        change wlT (heldOf s t) rest = true; exact hwl
+      | some k =>
+        rw [hmine] at hs; injection hs with hs; subst hs
+        obtain ⟨o, hoo, h1, _⟩ := inv.heapInv.mineOwn t k hmine
+        refine inv_plain_step inv hth rfl (Or.inl rfl) rfl rfl rfl rfl
+          (heap_mutate inv.heapInv k ⟨o, hoo, h1⟩ scramble)
+          inv.clean.1 inv.clean.2 inv.excl inv.rnodup (fun u _ => heldOf_congr rfl rfl u) ?_
+        change wlT (heldOf s t) rest = true; exact hwl
+    | rangeCached =>
+      cases hh : heldOf s t <;> simp [Held.afterT, Held.after, hh] at haft
     | range =>
       have hh : heldOf s t ≠ .free ∧ h' = heldOf s t := by
         cases hh : heldOf s t <;> simp [Held.afterT, Held.after, hh] at haft <;>
@@ -343,6 +452,7 @@ theorem stepTask_inv {s s' : Sys} {t : Nat} {task : Task} {rest : List Task} (in
         | r => simp only [Held.afterT]; rw [hh] at hwl; exact hwl
         | w => simp only [Held.afterT]; rw [hh] at hwl; exact hwl
       exact {
+        heapInv := inv.heapInv.frame rfl rfl rfl rfl rfl
         excl := inv.excl
         rnodup := inv.rnodup
         inodup := List.nodup_cons.mpr ⟨hnot, inv.inodup⟩
@@ -391,6 +501,7 @@ theorem stepTask_inv {s s' : Sys} {t : Nat} {task : Task} {rest : List Task} (in
         | r => simp only [Held.afterT]; rw [hh] at hwl; exact hwl
         | w => simp only [Held.afterT]; rw [hh] at hwl; exact hwl
       exact {
+        heapInv := inv.heapInv.frame rfl rfl rfl rfl rfl
         excl := inv.excl
         rnodup := inv.rnodup
         inodup := inv.inodup
@@ -424,6 +535,7 @@ theorem stepTask_inv {s s' : Sys} {t : Nat} {task : Task} {rest : List Task} (in
       rw [hmi] at hs; injection hs with hs; subst hs
       have hlen : s.m.length ≤ i := List.getElem?_eq_none_iff.mp hmi
       exact {
+        heapInv := heap_alloc inv.heapInv t (s.acc t) (s.began t)
         excl := inv.excl
         rnodup := inv.rnodup
         inodup := inv.inodup.erase t
@@ -476,6 +588,13 @@ theorem exec_inv {s s' : Sys} (sched : List Nat) (inv : Inv s) (hs : exec s sche
 
 theorem mkSys_inv (m0 : GMap) (progs : List (List Act)) (hwl : ∀ p ∈ progs, wellLocked p = true) :
     Inv (mkSys m0 progs) where
+  heapInv := {
+    handlesND := List.nodup_nil
+    handlesLt := (by intro o ho; cases ho)
+    mineOwn := (by intro t h hm; cases hm)
+    content := (by intro o ho; cases ho)
+    dirtyOwn := (by intro h hh; cases hh)
+    cacheNone := rfl }
   excl := by intro h; rfl
   rnodup := List.nodup_nil
   inodup := List.nodup_nil
